@@ -39,6 +39,7 @@ def run(tier, seed, t0):
     regions = ["interior", "edge_ab", "edge_bc", "edge_ca", "vertex_a", "vertex_b", "vertex_c"]
     floors = {"cases_in_region_" + r: (m.bins.get("region:" + r, 0), 0.01 * m.evaluations) for r in regions}
     floors["interior_cases_with_h_over_L_below_1e-5"] = (m.bins.get("interior_h_over_L_below_1e-5", 0), 0.002 * m.evaluations)
+    floors["far_field_queries_1e3_to_1e5_edge_lengths"] = (m.bins.get("distclass:4", 0), 0.05 * m.evaluations)
     floors["calls_on_moving_persistent_objects"] = (m.bins.get("sequence_calls", 0), T(tier, 5e5, 5e7))
     floors["exact_translations"] = (m.bins.get("exact_translations", 0), T(tier, 3e4, 3e6))
     for r in regions:
